@@ -193,6 +193,7 @@ fn header_case() -> impl Strategy<Value = HeaderCase> {
 }
 
 pub fn run(mut ctx: Ctx) -> ! {
+    crate::fuzz_seed::c02_fuzz(&mut ctx);
     ctx.assume("each header is decoded 8 times; on a tree where a set is written in HashSet iteration order detection per case is probabilistic (RandomState of the code under test), after the repair the run is deterministic");
     ctx.run_prop(
         Part::new(
